@@ -1,6 +1,7 @@
 package rules
 
 import (
+	"strings"
 	"go/token"
 	"go/types"
 
@@ -449,4 +450,189 @@ func (c *Ctx) checkNilNilPairs(rule string, fns []*ssa.Function) int {
 		}
 	}
 	return n
+}
+
+// ---- P12: the error of a call is consulted for its text only ---------------------------------------------------
+//
+// v, e := f(...) where v is used but e is never compared with nil, returned, stored, or handed to anything but a
+// formatter or logger: the code tests a NEIGHBOUR's error (`if err != nil` after `x, xErr := …`) or none at all. An
+// Engler-style contradiction — the author believed the call can fail (the error is named and even printed) and acts as if
+// it had not. Path-insensitive, over SSA referrers (through phis).
+type unexaminedErr struct {
+	Fn   *ssa.Function
+	Call *ssa.Call
+}
+
+func (c *Ctx) unexaminedErrors(fns []*ssa.Function) []unexaminedErr {
+	var out []unexaminedErr
+	isFormatter := func(cc *ssa.CallCommon) bool {
+		sc := cc.StaticCallee()
+		if sc == nil || sc.Pkg == nil {
+			return false
+		}
+		pp := sc.Pkg.Pkg.Path()
+		return pp == "fmt" || pp == "log" || strings.HasSuffix(pp, "/pkg/logger")
+	}
+	for _, fn := range fns {
+		for _, b := range fn.Blocks {
+			for _, in := range b.Instrs {
+				call, ok := in.(*ssa.Call)
+				if !ok || call.Referrers() == nil {
+					continue
+				}
+				res := call.Call.Signature().Results()
+				if res.Len() < 2 || !isErrorType(res.At(res.Len()-1).Type()) {
+					continue
+				}
+				var errV *ssa.Extract
+				valueUsed := false
+				for _, ref := range *call.Referrers() {
+					if ex, ok := ref.(*ssa.Extract); ok {
+						if ex.Index == res.Len()-1 {
+							errV = ex
+						} else if ex.Referrers() != nil {
+							for _, u := range *ex.Referrers() {
+								if _, dbg := u.(*ssa.DebugRef); !dbg {
+									valueUsed = true
+								}
+							}
+						}
+					}
+				}
+				if errV == nil || !valueUsed {
+					continue // an unused value imposes nothing
+				}
+				errUses := 0
+				if errV.Referrers() != nil {
+					for _, u := range *errV.Referrers() {
+						if _, dbg := u.(*ssa.DebugRef); !dbg {
+							errUses++
+						}
+					}
+				}
+				// the value itself is validated (email == "", len(x) > 0, v != nil): the code judges the outcome by the value
+				valueTested := false
+				for _, ref := range *call.Referrers() {
+					ex, ok := ref.(*ssa.Extract)
+					if !ok || ex.Index == res.Len()-1 || ex.Referrers() == nil {
+						continue
+					}
+					for _, u := range *ex.Referrers() {
+						switch x := u.(type) {
+						case *ssa.BinOp:
+							valueTested = true
+						case *ssa.Call:
+							if b, ok := x.Call.Value.(*ssa.Builtin); ok && b.Name() == "len" && x.Referrers() != nil {
+								for _, lu := range *x.Referrers() {
+									if _, ok := lu.(*ssa.BinOp); ok {
+										valueTested = true
+									}
+								}
+							}
+						}
+					}
+				}
+				if valueTested {
+					continue
+				}
+				if errUses == 0 {
+					continue // `v, _ := f()`: discarding the error is a different, visible decision (errcheck's business)
+				}
+				examined := false
+				seen := map[ssa.Value]bool{}
+				var visit func(v ssa.Value, d int)
+				visit = func(v ssa.Value, d int) {
+					if examined || d > 6 || seen[v] || v.Referrers() == nil {
+						return
+					}
+					seen[v] = true
+					for _, r := range *v.Referrers() {
+						switch x := r.(type) {
+						case *ssa.DebugRef:
+						case *ssa.Store:
+							// the element store of a variadic call: fmt.Errorf("… %v", e) — follow the argument slice to its consumer
+							if ia, ok := x.Addr.(*ssa.IndexAddr); ok && x.Val == v {
+								if al, ok := ia.X.(*ssa.Alloc); ok && al.Comment == "varargs" && al.Referrers() != nil {
+									onlyFormatters := true
+									for _, ar := range *al.Referrers() {
+										sl, ok := ar.(*ssa.Slice)
+										if !ok || sl.Referrers() == nil {
+											continue
+										}
+										for _, su := range *sl.Referrers() {
+											if ci, ok := su.(ssa.CallInstruction); !ok || !isFormatter(ci.Common()) {
+												onlyFormatters = false
+											}
+										}
+									}
+									if onlyFormatters {
+										continue
+									}
+								}
+							}
+							examined = true
+						case *ssa.BinOp, *ssa.Return, *ssa.TypeAssert, *ssa.MapUpdate, *ssa.Send, *ssa.MakeClosure:
+							examined = true
+						case *ssa.Phi:
+							visit(x, d+1)
+						case *ssa.MakeInterface:
+							visit(x, d+1)
+						case *ssa.ChangeInterface:
+							visit(x, d+1)
+						case *ssa.ChangeType:
+							visit(x, d+1)
+						case ssa.CallInstruction:
+							if x.Common().IsInvoke() && x.Common().Value == v {
+								// err.Error() and the like: reading the text
+								continue
+							}
+							if !isFormatter(x.Common()) {
+								examined = true
+							}
+						case *ssa.IndexAddr, *ssa.Slice:
+							// a varargs slice being filled for a formatter: follow where the slice goes
+							if val, ok := r.(ssa.Value); ok {
+								visit(val, d+1)
+							}
+						default:
+							examined = true // unknown use: assume it is looked at
+						}
+					}
+				}
+				// varargs: the error is stored into an element of a fresh []interface{}; follow the backing array to its consumer
+				visit(errV, 0)
+				if !examined {
+					out = append(out, unexaminedErr{fn, call})
+				}
+			}
+		}
+	}
+	return out
+}
+
+// runErrorsExamined registers P12 for a property: in the packages implementing it, every named error result that is
+// used at all is examined (compared with nil, returned, stored, handed to a non-formatting function) unless the code
+// validates the value result instead. Zero instances today (class-wide, round 8).
+func runErrorsExamined(c *Ctx, rule string, pkgs ...string) {
+	var fns []*ssa.Function
+	for _, fn := range c.P.ModFns {
+		pk := prog.FnPkg(fn)
+		if pk == nil {
+			continue
+		}
+		sp := prog.Short(pk.Path())
+		for _, p := range pkgs {
+			if sp == p || strings.HasPrefix(sp, p+"/") {
+				fns = append(fns, fn)
+				break
+			}
+		}
+	}
+	sites := c.unexaminedErrors(fns)
+	for _, s := range sites {
+		c.R.Bad(rule, "error-text-only|"+fnKey(s.Fn)+"|"+calleeText(s.Call), c.pos(s.Call), "the error of "+calleeText(s.Call)+" is named and printed but never examined (not compared with nil, returned, stored or handed on) while the call's value is used: the code tests another call's error, or none, and carries on with whatever a failed call left in the value", nil, nil)
+	}
+	if len(sites) == 0 {
+		c.R.OK(rule, "error-text-only|none", "-", sprintf("%d functions of %s: every named error result that is used is examined, or the value is validated instead", len(fns), strings.Join(pkgs, ", ")))
+	}
 }
